@@ -7,7 +7,9 @@ import base64, json, os, shutil, subprocess, concurrent.futures as cf
 from . import core
 
 LO, HI = 2, 5
-KIND = {"int": "int", "uint": "uint", "float": "float64", "bool": "bool", "string": "string", "bytes": "bytes"}
+KIND = {"int": "int", "uint": "uint", "float": "float64", "bool": "bool", "string": "string", "bytes": "bytes",
+        "int32": "int32", "int64": "int64", "uint32": "uint32", "uint64": "uint64", "float32": "float32"}
+INTS, UINTS, FLOATS = ("int", "int32", "int64"), ("uint", "uint32", "uint64"), ("float", "float32")
 LETTERS = "abcdefghij"
 DATE = "2001-02-03"
 BIG = 9007199254740993  # 2^53 + 1: not representable as a float64
@@ -116,8 +118,12 @@ def attr_design(a, name, tprefix, types):
 
 
 def default_of(a):
-    return {"int": V("int", 3), "uint": V("uint", 3), "float": V("float", 3, "half"), "bool": V("bool", 1),
-            "string": V("string", 3)}.get(a["kind"])
+    k = a["kind"]
+    if k in INTS or k in UINTS:
+        return V(k, 3)
+    if k in FLOATS:
+        return V(k, 3, "half")
+    return {"bool": V("bool", 1), "string": V("string", 3)}.get(k)
 
 
 def V(cls, n, s="plain", cn=1):
@@ -134,11 +140,11 @@ def is_absent(v):
 # ------------------------------------------------------------------ concretisation
 def concrete_leaf(a, v):
     k, n, s = a["kind"], v["n"], v["s"]
-    if k == "int":
+    if k in INTS:
         return -n if s == "neg" else (BIG if s == "big" else n)
-    if k == "uint":
+    if k in UINTS:
         return BIG if s == "big" else n
-    if k == "float":
+    if k in FLOATS:
         return n + 0.5 if s == "half" else float(n)
     if k == "bool":
         return n == 1
@@ -169,7 +175,11 @@ def filler(a):
     k = a["kind"]
     if k == "string":
         return DATE if a["rule"] == "format" else "abc"
-    return {"int": 3, "uint": 3, "float": 3.5, "bool": True, "bytes": {"$bytes": "AQID"}}[k]
+    if k in INTS or k in UINTS:
+        return 3
+    if k in FLOATS:
+        return 3.5
+    return {"bool": True, "bytes": {"$bytes": "AQID"}}[k]
 
 
 def concrete(a, v):
